@@ -161,12 +161,15 @@ PLANS['C15'] = Plan(
 WCF = 'src/workflow_coordinator.py::_WorkflowCoordinator.'
 PLANS['C07'] = Plan(
     'C07', [WCF + '__align', WCF + '__getBestAlignment', 'src/alignment/segment_chainer.py::SequentialityScorer.getScore', WCF + 'execute',
-            'src/alignment/segments.py::AlignmentSegment.slice'], 'other',
+            'src/alignment/segments.py::AlignmentSegment.slice', 'src/correlation/optical_map.py::OpticalMap.getInitialAlignment#checked',
+            'src/correlation/optical_map.py::InitialAlignment.refine', WCF + '__getPrimaryCorrelations'], 'other',
     "Deductive part (exception-freedom of the per-query glue, safety obligations generated automatically by the VC generator): _WorkflowCoordinator.__align "
     "never raises - in particular the unpacking of zip(*rows) is only reached with at least one candidate row - and __getBestAlignment returns None exactly for "
     "an empty candidate list (else a maximal-confidence candidate); _WorkflowCoordinator.execute hands p_imap a worker count that is None or at least 1 "
     "(precondition of the assumed pool contract, under the documented requirement that -c, if given, is positive) and never dereferences a None row; "
-    "SequentialityScorer.getScore never divides by zero (both join-score variants); AlignmentSegment.slice never indexes an empty list for the operand shapes of conflict resolution; the numerical callees (FFT seeding, refinement, Aligner.align) are assumed contracts "
+    "SequentialityScorer.getScore never divides by zero (both join-score variants); AlignmentSegment.slice never indexes an empty list for the operand shapes of conflict resolution; the seeding steps getInitialAlignment / refine never "
+    "correlate or take the maximum of an empty array and never index a peak outside the correlation (a query longer than the reference, by length or by its bit "
+    "vector, gets an empty result: where defect D5 was); the numerical callees (FFT seeding, refinement, Aligner.align) are assumed contracts "
     "(result types only). BOUNDED: the whole program on generated well-formed CMAP sets with degenerate molecules over-weighted, all output modes and several "
     "parameter settings: no exception, well-formed files, every written file (zero-record ones included) is read back by the project's XMAP reader.",
     bounded=_lazy('bcheck.c07', 'bounded'), replay=_lazy('bcheck.c07', 'replay'),
@@ -315,14 +318,17 @@ PLANS['C08'] = Plan(
 PLANS['C06'] = Plan(
     'C06', ['src/correlation/optical_map.py::toRelativeGenomicPositions', 'src/correlation/sequence_generator.py::SequenceGenerator.positionsToSequence',
             AE + '__getAlignedPairs', 'src/correlation/optical_map.py::OpticalMap.getSequence', 'src/correlation/optical_map.py::CorrelationResult.create',
-            'src/correlation/optical_map.py::CorrelationResult.createPeaks', 'src/correlation/optical_map.py::InitialAlignment.refine'], 'exploration',
+            'src/correlation/optical_map.py::CorrelationResult.createPeaks', 'src/correlation/optical_map.py::InitialAlignment.refine',
+            'src/correlation/optical_map.py::InitialAlignment.create', 'src/correlation/optical_map.py::OpticalMap.getInitialAlignment#checked'], 'exploration',
     "Decided by a BOUNDED run-time contract on Program.run: that FFT cross-correlation plus scipy find_peaks seeds the true diagonal is floating-point "
     "numerics outside any contract within reach. Planted exact copies of interior reference windows (class stated in the property) must be reported exactly. "
     "Deductive contributions reported alongside and not counted towards the level: bins are counted from the window start and a bin index converts to the "
     "bin centre (within resolution/2), and candidates within maxDistance of the seed diagonal are exactly enumerated with offset = query - (reference - seed); the "
     "coordinate bookkeeping of the refinement step (InitialAlignment.refine, OpticalMap.getSequence, CorrelationResult.create / createPeaks): the reference is "
     "vectorised from seed - margin to seed + query length + margin and the secondary peaks are converted back with the SAME origin and resolution, each peak at "
-    "the centre of a bin of that window; maps and strand are passed on. The FFT correlation and scipy find_peaks enter as library contracts that say nothing "
+    "the centre of a bin of that window; maps and strand are passed on; the primary seeding step (OpticalMap.getInitialAlignment, InitialAlignment.create) "
+    "vectorises both maps with the same generator from their origin, keeps at most peaksCount peaks at bin centres counted from the reference origin, and "
+    "gives a query that does not fit into the reference an empty result. The FFT correlation and scipy find_peaks enter as library contracts that say nothing "
     "about values.",
     bounded=_lazy('bcheck.c06', 'bounded'), replay=_lazy('bcheck.c06', 'replay'),
     technique='bounded run-time contract on the real program for planted exact copies (deductive lemmas on binning and pairing reported alongside)',
